@@ -20,7 +20,8 @@ RULE = (
     "call is non-trivial except plain scalars against an empty schema; distinct by canonical (schema, value)"
 )
 ASSUMPTIONS = [
-    "RecursionError is judged only for nesting depth <= 60 (well inside the default budget of 1000 "
+"\"every call terminates\" is judged in logical steps for the one shape where work can multiply (models whose defaults hold models): constructor entries per call against a linear budget, counted with sys.monitoring",
+        "RecursionError is judged only for nesting depth <= 60 (well inside the default budget of 1000 "
     "frames); deeper inputs are tallied as out-of-domain",
     "the schema-parse family is SchemaParseError and its subclasses",
     "a call terminates = returns within the shard watchdog; a watchdog firing is inconclusive",
@@ -641,9 +642,55 @@ def beyond_str_limit_in_schema(ctx, sut):
                     break
 
 
+def nested_default_chain(depth, with_member_defaults):
+    schema = {"type": "object", "title": "Leaf", "default": {},
+              "properties": {"v": {"type": "integer", **({"default": 3} if with_member_defaults else {})}}}
+    for level in range(depth):
+        schema = {"type": "object", "title": f"Level{level}", "default": {}, "properties": {"next": schema}}
+    return schema
+
+
+def work_is_bounded(ctx, sut, only=None):
+    """"Every call terminates" is judged in logical steps, never on the clock: the number of times the library
+    enters a model's initialiser while answering ONE call, on schemas whose work should grow linearly (models
+    whose defaults hold models whose defaults ...).  Doubling per level shows at depth 12 as 8000 entries
+    against 50."""
+    from statham.schema.elements.object import Object  # pylint: disable=import-outside-toplevel
+    from vlib import monitors  # pylint: disable=import-outside-toplevel
+
+    for number, (depth, member_defaults) in enumerate([(4, False), (8, True), (12, False), (12, True)]):
+        if only is None and number % ctx.nshards != ctx.shard:
+            continue
+        if only is not None and [depth, member_defaults] != only:
+            continue
+        schema = nested_default_chain(depth, member_defaults)
+        try:
+            element = sut.parse_direct(copy.deepcopy(schema))
+        except Exception as exc:  # pylint: disable=broad-except
+            ctx.count("work.parse_failed." + type(exc).__name__)
+            continue
+        for label, args in (("empty_object", ({},)), ("no_value", ())):
+            with monitors.CallCounter({"init": Object.__init__, "new": Object.__new__}) as counter:
+                try:
+                    element(*copy.deepcopy(args))
+                except Exception:  # pylint: disable=broad-except
+                    pass
+            ctx.evaluation()
+            entries = counter.calls.get("init", 0) + counter.calls.get("new", 0)
+            ctx.count("work.calls_measured")
+            ctx.count("work.initialiser_entries", entries)
+            budget = 10 * (depth + 2)
+            if entries > budget:
+                ctx.witness("work_not_bounded", {"site": "work", "depth": depth, "member_defaults": member_defaults},
+                            f"one call ({label}) on a chain of {depth} models with defaults entered the model "
+                            f"constructors {entries} times (linear budget {budget}): the work multiplies per level")
+                break
+
+
 def run_shard(ctx):
     from vlib import sut  # pylint: disable=import-outside-toplevel
 
+    work_is_bounded(ctx, sut)
     beyond_str_limit(ctx, sut)
     beyond_str_limit_in_schema(ctx, sut)
     boolean_and_untitled_roots(ctx, sut)
@@ -656,6 +703,9 @@ def replay(case, ctx):
     from vlib import sut  # pylint: disable=import-outside-toplevel
 
     schema = case.get("schema")
+    if case.get("site") == "work":
+        work_is_bounded(ctx, sut, only=[case["depth"], case["member_defaults"]])
+        return
     if case.get("site") == "roots":
         shape = case["schema_shape"]
         schema = instantiate_huge(shape) if not isinstance(shape, bool) else shape
